@@ -47,7 +47,7 @@ var propSpecs = map[string]PropSpec{
 	"C10": {ID: "C10", Level: "proof", Patterns: modelPkgs,
 		NotCovered: []string{"Sacramento: store bounds and water balance (only the per-timestep component identities and the unit-hydrograph normalisation are proved)", "GR4J unit-hydrograph mass closure (exact balance with zero exchange and zero PET)"}},
 	"C11": {ID: "C11", Level: "proof", Patterns: modelPkgs,
-		NotCovered: []string{"storage routing with bias != 0 or routing power != 1 (sub-step iteration)"}},
+		NotCovered: []string{"storage routing with bias != 0 or routing power != 1 (sub-step iteration)", "storage-discharge relation within the solver tolerance on the root-finder exit of calcOutflow (FindRoot may stop unconverged after maxIterations; the relation residual is then whatever the last trial gave)"}},
 	"C12": {ID: "C12", Level: "proof", Patterns: modelPkgs},
 	"C13": {ID: "C13", Level: "proof", Patterns: modelPkgs},
 	"C15": {ID: "C15", Level: "proof", Patterns: modelPkgs},
